@@ -308,8 +308,113 @@ def unary_lemma(word, fname):
     return body
 
 
+# ------------------------------------------------------------------ translator self-test
+I128_MIN, I128_MAX = -(1 << 127), (1 << 127) - 1
+ST_INTS = [(7, 3), (-7, 3), (7, -3), (I128_MIN, -1), (5, 0), (1 << 100, 1 << 30), (3, 200), (-1, 127), (I128_MAX, 1), (0, 0), (12345678901234567890, -987654321)]
+ST_REALS = [(1.5, 2.25), (-0.0, 0.0), (2.5, -3.5), (1e300, 1e300), (0.1, 0.2), (-7.75, 2.0), (float("inf"), 1.0), (3.5, 0.0)]
+
+
+def pin_cell(name, v):
+    """constraints that make the symbolic cell `name` the concrete int / float v, and its push line"""
+    import struct
+    d = z3.BitVec(name + ".discr", 64)
+    if isinstance(v, int):
+        return [d == CELL_VARIANTS.index("Int"), int_payload(name) == z3.BitVecVal(v, 128)], "push int %d" % v
+    bits = struct.unpack("<Q", struct.pack("<d", v))[0]
+    return [d == CELL_VARIANTS.index("Real"), z3.fpToIEEEBV(real_payload(name)) == z3.BitVecVal(bits, 64), real_payload(name) == z3.fpBVToFP(z3.BitVecVal(bits, 64), z3.Float64())], "push real_bits 0x%016x" % bits
+
+
+def describe_outcome(L, o):
+    if o.kind != "return":
+        return "panic"
+    if o.value.variant == "Err":
+        return "err " + (L.result_kind(o)[1] or "?")
+    S1 = final_state(L, o)
+    ds1 = L.field(S1, "State", "data_stack")
+    top = ds1.items[-1] if ds1.items else None
+    tv = variant_on_path(L, o, top) if top is not None else None
+    s_ = z3.Solver()
+    s_.add(*o.st.pc)
+    s_.check()
+    m = s_.model()
+    if tv == "Int":
+        v = m.eval(L.payload(top, 0, "i128").t, model_completion=True).as_long()
+        return "ok int %d" % (v - (1 << 128) if v >> 127 else v)
+    if tv == "Real":
+        if z3.is_true(m.eval(z3.fpIsNaN(L.payload(top, 0, "f64").t), model_completion=True)):
+            return "ok real NaN"
+        fb = m.eval(z3.fpToIEEEBV(L.payload(top, 0, "f64").t), model_completion=True).as_long()
+        return "ok real 0x%016x" % fb
+    if tv == "Flag":
+        return "ok flag %s" % ("true" if z3.is_true(m.eval(L.payload(top, 0, "bool").t, model_completion=True)) else "false")
+    return "ok %s" % tv
+
+
+def selftest_word(word, fn, arity):
+    """mirsym's answer for concrete operands (pinned by constraints) vs the real interpreter's, word by word"""
+    def body(L):
+        from e2.driver import build_replayer, run_scenario, observe
+        from e2.lemma import Obligation
+        ok, msg = build_replayer()
+        if not ok:
+            raise Unsupported("replayer build failed: " + msg)
+        samples = []
+        for ia, ib in ST_INTS:
+            samples.append((ia, ib))
+        for ra, rb in ST_REALS:
+            samples.append((ra, rb))
+        samples += [(3, 1.5), (2.5, 4)]
+        agree = tot = 0
+        for sa, sb in samples[:(len(samples) if arity == 2 else 12)]:
+            names = ["a", "b"][:arity]
+            vals = [sa, sb][:arity] if arity == 2 else [sa]
+            cells = [L.cell(nm) for nm in names]
+            pre = Pre(L, stack=cells)
+            # an unlimited, plain state: what `eval` gives on a fresh interpreter
+            L.field(pre.S, "State", "stack_limit").variant = "None"
+            pc = list(pre.pc) + [z3.ULE(pre.ds_len.t, pre.n0)]          # both operands visible
+            lines = []
+            for nm, v in zip(names, vals):
+                cs, ln = pin_cell(nm, v)
+                pc += cs
+                lines.append(ln)
+            args = [pre.xs] if "{closure#" not in fn.name else [FnVal("env:" + word), pre.xs]
+            outs = [o for o in L.run(fn, args, pc, pre.roots()) if L.feasible(o)]
+            rc, out = run_scenario(lines + ["eval " + word, "stack"], False)
+            obs = observe(out)
+            native_res = obs["results"][-1] if obs["results"] else "?"
+            tot += 1
+            answers = set()
+            for o in outs:
+                answers.add(describe_outcome(L, o))
+            if len(answers) != 1:
+                L.undecided.append((L.cur, "TRANSLATOR MISMATCH %s %r: mirsym is not deterministic on concrete operands: %s" % (word, vals, sorted(answers))))
+                continue
+            mine = answers.pop()
+            if native_res.startswith("ok"):
+                c0 = obs["cells"][0] if obs["cells"] else ("?", "?", "?")
+                nat = "ok %s %s" % (c0[0], c0[1])
+                if c0[0] == "real" and (int(c0[1], 16) >> 52) & 0x7ff == 0x7ff and int(c0[1], 16) & ((1 << 52) - 1):
+                    nat = "ok real NaN"
+            elif native_res.startswith("err"):
+                nat = "err " + native_res.split(" ")[1]
+            else:
+                nat = native_res.split(" ")[0]
+            if nat != mine:
+                L.undecided.append((L.cur, "TRANSLATOR MISMATCH %s %r: native %s vs mirsym %s" % (word, vals, nat, mine)))
+            else:
+                agree += 1
+        L.selftest_traces = getattr(L, "selftest_traces", 0) + agree
+        L.obligations.append(Obligation(L.cur, "translator self-test %s: %d of %d concrete operand samples agree with the real interpreter" % (word, agree, tot), "holds"))
+    return body
+
+
 def run(L, tier, only=None):
     wm = word_map(L.ex, "arith::load")
+    st_words = ["+", "/", "rem", "<", "bsl", "round", "abs", ">int"] if tier == "quick" else BINARY + UNARY
+    for w in st_words:
+        if w in wm and (not only or "selftest" in only):
+            L.lemma("C09 translator self-test %s" % w, selftest_word(w, L.fn(wm[w][0]), 2 if w in BINARY else 1))
     for w in BINARY + UNARY:
         if only and w not in only:
             continue
